@@ -241,10 +241,14 @@ where
                     // 5.
                     let v = algo.beta * (u1 / (F::one() - u1)).ln();
                     w = self.a * v.exp();
-                    if !(algo.alpha * ((algo.alpha / (self.b + w)).ln() + v)
-                        - F::from(4.).unwrap().ln()
-                        < z.ln())
-                    {
+                    // For `u1` close to one `w` overflows; `ln(alpha / (b + w)) + v` then tends to
+                    // `ln(alpha / a)` instead of evaluating to minus infinity.
+                    let log_term = if w == F::infinity() {
+                        (algo.alpha / self.a).ln()
+                    } else {
+                        (algo.alpha / (self.b + w)).ln() + v
+                    };
+                    if !(algo.alpha * log_term - F::from(4.).unwrap().ln() < z.ln()) {
                         break;
                     };
                 }
